@@ -1,4 +1,5 @@
 import Mathlib.Data.List.Permutation
+import VoluteModel.Lemmas.SeqCore
 
 /-!
 # Counting lemmas (the only file that imports a Mathlib module)
@@ -26,8 +27,9 @@ theorem range_covered (N : Nat) (V : List Nat) (hnd : V.Nodup) (hlt : ∀ v ∈ 
   have hperm := hsp.perm_of_length_le (by rw [List.length_range]; exact hlen)
   exact hperm.mem_iff.mpr (List.mem_range.mpr hx)
 
-theorem factorial_le8 : ∀ n : Fin 9, Nat.factorial n.val =
-    ([1, 1, 2, 6, 24, 120, 720, 5040, 40320] : List Nat)[n.val]?.getD 0 := by
-  decide
+theorem factL_eq (n : Nat) : factL n = n.factorial := by
+  induction n with
+  | zero => rfl
+  | succ n ih => simp only [factL, Nat.factorial_succ, ih]
 
 end VoluteModel
